@@ -55,7 +55,7 @@ CHECKS = {
    text="/proc/net/dev with 0-3 interfaces (names with ':' '.' 15 chars) and every counter column at every boundary; /proc/diskstats in all five line layouts (14/18/20/7/15 fields) x all sets of <= 2 (thorough 4) devices from 14 names whose whole-disk status is given by /sys/block (incl. prefix-sharing names sda/sdaa, loop1/loop10, md1/md10, cciss/c0d0) with distinct prime-scaled columns; per-device, totals and empty conventions; disk_usage over a 5^3 statvfs grid x (frsize,bsize) pairs.",
    note="15-field (2.4) layout: psutil's in-code description is the only specification available.",
    ref="DESIGN.md §4 C09"),
- "C11": dict(level="exploration", engine="I",
+ "C11": dict(level="exploration", engine="I+F+S",
    technique="bounded-exhaustive enumeration of kernel-formatted inputs rendered by an independent simulated kernel, real parser code, reference decoder + fd-closing fault enumeration",
    text='Socket tables rendered from network-order address bytes: every (local, remote) address x port combination for tcp/udp/tcp6/udp6, all 11 TCP states, UNIX sockets of 3 types x 6 paths (none, abstract, with space, with colon, non-ASCII) x 5 holder sets (none, one, two fds, two processes), all multisets of <= 2 (thorough 3) sockets from a 6-entry menu x all 11 kinds, IPv6 tables absent, 8 invalid kinds; system-wide and per-process forms; plus every descriptor closing before every access of the fd scan.',
    note='Rows compared as sets; a shared inet socket may be attributed to any of its holders; newline in a UNIX path is outside the alphabet.',
@@ -132,6 +132,31 @@ ADDED = {
  "C10": " Also: counters changing while a device is unplugged, the kernel listing the same devices in another order (order derived from the counters), roots where the wrap was seen on a later snapshot, a schedule scenario with two disk_io_counters() callers.",
 }
 
+ALT_NOTE = (" Second configuration: the whole check is run once more (shorter histories for the expensive searches) in a "
+            "python -O interpreter with procfs mounted at /hostproc (psutil.PROCFS_PATH; nothing answers under /proc) and PSUTIL_DEBUG on.")
+ALT_IDS = {"C01", "C02", "C03", "C04", "C05", "C06", "C07", "C08", "C09", "C10", "C11", "C12", "C13", "C14", "C15", "C16", "C18", "C19"}
+ADDED7 = {
+ "C01": " A clock variant (wall-clock steps, boot_time()/cpu_stats() between death and recycling).",
+ "C02": " Events for other system-wide functions reading the same tables (cpu_stats, cpu_times, cpu_count); comparisons with objects of other types; subclass instances among the held objects.",
+ "C03": " Objects that have answered before the faulted call; a zombie subject whose name contains ') R ('.",
+ "C04": " attrs given as tuple / set / empty collection; a pid above the default pid_max of 32768.",
+ "C05": " The fault part also has a MUST set (relatives not behind the vanished process stay); wait() called before the pid is recycled.",
+ "C06": " Names under filesystem encodings ascii / latin-1 / utf-8; long-named zombies.",
+ "C07": " Process.cpu_percent() sequences rotate plain, psutil.Popen and subclass objects and hostile process names.",
+ "C08": " Page sizes of 16 and 64 KiB on the fallback path; /proc/vmstat unreadable (EACCES).",
+ "C09": " 4K-native drives (sysfs sector-size files present); an interface wrapped, replaced by another one and re-created.",
+ "C11": " Schedule part: system-wide and per-process calls overlapping in two threads (<= 1-2 pre-emptions).",
+ "C12": " Inside one oneshot() block answers do not depend on what the caller did to earlier answers; PROCFS_PATH re-pointed after the object was created.",
+ "C13": " Repeated memory_maps()/memory_full_info() inside one block; memory_percent() after MemTotal changed; PROCFS_PATH re-pointed after object creation.",
+ "C14": " PROCFS_PATH re-pointed after object creation.",
+ "C15": " Process objects built on a thread id.",
+ "C16": " An exception striking while the block is being entered.",
+ "C17": " The shim's ioctl rejects dead descriptors; value violations carry the worker's call history.",
+ "C18": " After fork() the child configures itself through Process(); PSUTIL_DEBUG=1 with an unwritable stderr.",
+ "C19": " Several fan chips in either nesting; a second cpu_freq() call after the limits changed.",
+ "C20": " System-wide connection records owned by pid 0; SunOS threads() when the process died after the first thread was read.",
+}
+
 NOT_YET = {
 }
 
@@ -151,7 +176,7 @@ def main():
             "evidence_file": "/verif/evidence/%s.json" % i,
             "replay_cmd_template": "./check %s --replay {path}" % i,
             "engine": c["engine"],
-            "level_claimed": {"category": c["level"], "text": c["text"] + ADDED.get(i, ""), "design_ref": c["ref"]},
+            "level_claimed": {"category": c["level"], "text": c["text"] + ADDED.get(i, "") + ADDED7.get(i, "") + (ALT_NOTE if i in ALT_IDS else ""), "design_ref": c["ref"]},
             "level_note": c["note"],
             "technique": c["technique"],
         })
